@@ -240,9 +240,20 @@ def k5(ctx, rid):
     if f is None:
         raise core.AnchorLost('init_from_existing')
     # promotion of an already existing blob: the helper pop_active, or a direct pop() from the vector of opened blobs
-    pops = [c for c in f.calls if 'storage::core::Storage::<K>::pop_active' in prog.resolve(c)
-            or (c.name == 'pop' and c.path.startswith('std::vec::Vec') and 'blob::core::Blob<' in c.full)]
-    news = [c for c in f.calls if blobs.is_fresh_call(prog, c)]
+    def sites(g):
+        return ([c for c in g.calls if c.bb in g.reachable() and ('storage::core::Storage::<K>::pop_active' in prog.resolve(c)
+                 or (c.name == 'pop' and c.path.startswith('std::vec::Vec') and 'blob::core::Blob<' in c.full))],
+                [c for c in g.calls if c.bb in g.reachable() and blobs.is_fresh_call(prog, c)])
+    pops, news = sites(f)
+    if not pops or not news:
+        # the selection may have been extracted into a helper of init_from_existing
+        for c in f.calls:
+            for t in prog.resolve(c):
+                g = prog.body_of(t) if t in prog.fns else None
+                if g is not None and g.id != f.id and g.file == f.file:
+                    p2, n2 = sites(g)
+                    if p2 and n2:
+                        f, pops, news = g, p2, n2
     if not pops or not news:
         raise core.AnchorLost('pop_active / open_new in init_from_existing')
     key = 'promote-only-if-nonempty|storage::core::Storage::<K>::init_from_existing'
